@@ -220,8 +220,8 @@ var aliases = map[string]string{
 	"wrong:reader|[size=0&desc=24sig]": "empty-member-zip64-descriptor-misread",
 	"wrong:writer|[size=0&desc=24sig]": "empty-member-zip64-descriptor-misread-corrupts-rewrite",
 	"panic:zipslicer.(*Directory).GetOriginalDirectory>zipslicer.(*Directory).WriteDirectory": "getoriginaldirectory-nil-writer-panic",
-	"wrong:reserialise:getoriginaldirectory:end-records-zero-padded|members=1":                "getoriginaldirectory-zero-padded-end-record",
-	"wrong:reserialise:getoriginaldirectory-trim:end-records-zero-padded|members=1":           "getoriginaldirectory-zero-padded-end-record",
+	"wrong:reserialise:getoriginaldirectory:end-records-zero-padded|any":                      "getoriginaldirectory-zero-padded-end-record",
+	"wrong:reserialise:getoriginaldirectory-trim:end-records-zero-padded|any":                 "getoriginaldirectory-zero-padded-end-record",
 }
 
 type keyInfo struct {
@@ -264,6 +264,9 @@ func causeClass(a zipgen.Archive) string {
 			s += "+"
 		}
 		s += f
+	}
+	if len(ms) == 0 && ((len(a.Members) == 1 && s == "") || (len(a.Members) == 0 && a.ForceZip64 != 0 && a.EOCDComment == 0)) {
+		return "any" // nothing about the generated archive matters beyond being readable by relic
 	}
 	if s == "" {
 		s = fmt.Sprintf("members=%d", len(a.Members))
@@ -398,11 +401,31 @@ func attribute(wk *worker, specs []zipgen.Archive, records []record) []*keyInfo 
 			hit = find(sp, spec)
 		}
 		if hit == nil && rebased && !showsMemo(spec, path, id) {
-			// the equivalent generated archive does not show it: keep the full provenance
+			// The equivalent generated archive does not show it, so the cause lies in
+			// what relic wrote. Name it by the shortest writer path from the generated
+			// archive that shows it: the last op alone, the first op alone, else the
+			// full path.
 			run.Outcome("rebase-not-confirmed")
-			spec, path, rebased = specs[r.Base], r.Path, false
-			sp = id + "@" + pathKey(path)
-			hit = find(sp, spec)
+			spec, rebased = specs[r.Base], false
+			cands := [][]string{r.Path}
+			if len(r.Path) == 2 {
+				last, first := r.Path[1:], r.Path[:1]
+				if strings.HasPrefix(r.Sym.Stage, "op-") {
+					cands = [][]string{last, r.Path}
+				} else {
+					cands = [][]string{last, first, r.Path}
+				}
+			}
+			for i, cand := range cands {
+				path = cand
+				sp = id + "@" + pathKey(path)
+				if hit = find(sp, spec); hit != nil {
+					break
+				}
+				if i == len(cands)-1 || showsMemo(spec, path, id) {
+					break
+				}
+			}
 		}
 		if hit == nil {
 			hit = &cause{spec: spec, canon: spec, path: path}
@@ -415,7 +438,7 @@ func attribute(wk *worker, specs []zipgen.Archive, records []record) []*keyInfo 
 				if stageGroup(r.Sym.Stage) == "reserialise" {
 					hit.prefix += ":" + r.Sym.Stage + ":" + r.Sym.Class
 				}
-				if len(path) > 1 {
+				if len(path) > 1 || (len(path) == 1 && stageGroup(r.Sym.Stage) != "writer") {
 					hit.prefix += "@" + pathKey(path)
 				}
 				hit.class = causeClass(hit.canon)
